@@ -134,7 +134,10 @@ func (g *tgen) target(s *asch) (sx, bool) {
 		}
 		switch {
 		case only("int", "long"):
-			return tInt(64), true
+			if g.wide {
+				return tInt(64), true
+			}
+			return tInt([]int{64, 64, 0, 32, 16}[r.Intn(5)]), true
 		case only("float", "double"):
 			return A("f32"), true
 		case only("double"):
